@@ -189,7 +189,7 @@ class CallMixin:
         con = ex.contracts.get(fi.qualname)
         if con is not None and fi.qualname in ex.use_contract and not ex.ghost.get('__verifying__') == fi.qualname + '#top':
             return ex.apply_contract(con, fi, args, kwargs, node, self_cls=self_cls)
-        hook = ex.ghost.get('__call_hooks__', {}).get(fi.qualname)
+        hook = ex.ghost.get('__call_hooks__', {}).get(fi.qualname) or ex.call_hooks.get(fi.qualname)
         if hook is not None:
             r = hook(self, fi, args, kwargs, node, self_cls)
             if r is not NotImplemented:
